@@ -2,8 +2,10 @@ package main
 
 import (
 	"fmt"
+	"sort"
 	"strings"
 
+	"github.com/smart-core-os/sc-api/go/traits"
 	"github.com/smart-core-os/sc-golang/internal/testproto"
 	"github.com/smart-core-os/sc-golang/pkg/masks"
 	"github.com/smart-core-os/sc-golang/pkg/resource"
@@ -21,6 +23,39 @@ func init() { vh.Register("C05", genC05) }
 type c05 struct {
 	o *vcoq.Out
 	r *vcoq.Rand
+	// classes of the tuple being emitted, for the histogram
+	pairClass string
+	poison    string
+}
+
+// which branch of FieldUpdater.Merge (= of the model's merge_gen) a tuple takes, for the histogram
+func mergeBranch(code int64, um, wm *fieldmaskpb.FieldMask) string {
+	switch {
+	case code != 0:
+		return "model-branch:rejected-by-Validate"
+	case wm != nil && len(wm.Paths) == 0:
+		return "model-branch:nothing-writable"
+	case um == nil && wm == nil:
+		return "model-branch:nil-update,nil-writable(reset dst)"
+	case um == nil:
+		return "model-branch:nil-update,prune-writable"
+	case len(um.Paths) == 0:
+		return "model-branch:empty-update"
+	case wm == nil:
+		return "model-branch:masked,nil-writable"
+	}
+	return "model-branch:masked,writable-filter"
+}
+
+func (g *c05) classTags() []string {
+	var out []string
+	if g.pairClass != "" {
+		out = append(out, g.pairClass)
+	}
+	if g.poison != "" {
+		out = append(out, "invalid-child+valid-parent", "poison:"+g.poison)
+	}
+	return out
 }
 
 func cloneMask(fm *fieldmaskpb.FieldMask) *fieldmaskpb.FieldMask {
@@ -322,6 +357,113 @@ func (g *c05) resetMask(stored, written proto.Message) (*fieldmaskpb.FieldMask, 
 
 func boolCoq(b bool) string { return vcoq.Bool(b) }
 
+// invalidBelow builds an INVALID path that has the valid path p as a proper path-prefix: an unknown field
+// of a message, or a continuation below a scalar / map / repeated field. Next to p itself in a mask (or
+// in another mask that is united with it) a normalizing union drops it - validation must still see it.
+func invalidBelow(r *vcoq.Rand, md protoreflect.MessageDescriptor, p string) (string, vmsg.PathKind, bool) {
+	var fd protoreflect.FieldDescriptor
+	for _, s := range splitPath(p) {
+		if md == nil {
+			return "", 0, false
+		}
+		fd = md.Fields().ByName(protoreflect.Name(s))
+		if fd == nil {
+			return "", 0, false
+		}
+		md = nil
+		if fd.Message() != nil && !fd.IsMap() && !fd.IsList() {
+			md = fd.Message()
+		}
+	}
+	switch {
+	case fd == nil:
+		return "", 0, false
+	case fd.IsMap():
+		return p + "." + []string{"a", "key", "value"}[r.Intn(3)], vmsg.PathThroughMap, true
+	case fd.IsList() && fd.Message() != nil:
+		if fd.Message().Fields().Len() == 0 {
+			return "", 0, false
+		}
+		return p + "." + string(fd.Message().Fields().Get(r.Intn(fd.Message().Fields().Len())).Name()), vmsg.PathThroughRepMsg, true
+	case fd.IsList():
+		return p + "." + []string{"0", "a", "value"}[r.Intn(3)], vmsg.PathThroughRepScalar, true
+	case fd.Message() != nil:
+		return p + "." + []string{"zzz", "nope", "value_"}[r.Intn(3)], vmsg.PathUnknown, true
+	default:
+		return p + "." + []string{"value", "a", "c"}[r.Intn(3)], vmsg.PathThroughScalar, true
+	}
+}
+
+func withPaths(fm *fieldmaskpb.FieldMask, r *vcoq.Rand, ps ...string) *fieldmaskpb.FieldMask {
+	out := &fieldmaskpb.FieldMask{}
+	if fm != nil {
+		out.Paths = append(out.Paths, fm.Paths...)
+	}
+	for _, p := range ps {
+		// anywhere in the list: before or after what is already there
+		i := r.Intn(len(out.Paths) + 1)
+		out.Paths = append(out.Paths[:i], append([]string{p}, out.Paths[i:]...)...)
+	}
+	return out
+}
+
+// poison slots: which mask gets the valid parent path and which the invalid path below it
+const (
+	poisonUpdateUpdate = iota // both in the update mask
+	poisonUpdateMore          // parent in the update mask, invalid child in the extra update paths
+	poisonMoreUpdate          // invalid child in the update mask, parent in the extra update paths
+	poisonMoreMore            // both in the extra update paths
+	poisonWritable            // both in the resource's writable mask
+	poisonMoreWritable        // both in the extra writable mask
+	poisonWritableMoreW       // parent in the writable mask, child in the extra writable mask
+	poisonMoreWWritable       // child in the writable mask, parent in the extra writable mask
+	poisonReset               // both in the reset mask
+	poisonSlots
+)
+
+var poisonNames = []string{"update+update", "update+more-update", "more-update+update", "more-update+more-update",
+	"writable+writable", "more-writable+more-writable", "writable+more-writable", "more-writable+writable", "reset+reset"}
+
+// oneFieldChanged returns a copy of m that differs from it in exactly one top-level field (cleared, or
+// replaced by the field of a fresh random message), or ok=false if no such change was found.
+func oneFieldChanged(r *vcoq.Rand, m proto.Message, cfg vmsg.RandCfg) (proto.Message, bool) {
+	for try := 0; try < 8; try++ {
+		c := proto.Clone(m)
+		cr := c.ProtoReflect()
+		fds := cr.Descriptor().Fields()
+		fd := fds.Get(r.Intn(fds.Len()))
+		if r.Bool() && cr.Has(fd) {
+			cr.Clear(fd)
+		} else {
+			other := vmsg.RandMsg(r, m, cfg).ProtoReflect()
+			if !other.Has(fd) {
+				continue
+			}
+			cr.Set(fd, other.Get(fd))
+		}
+		if !proto.Equal(c, m) {
+			return c, true
+		}
+	}
+	return nil, false
+}
+
+// a populated repeated field of m (top level), if any
+func populatedRepeated(r *vcoq.Rand, m proto.Message) (string, bool) {
+	var out []string
+	m.ProtoReflect().Range(func(fd protoreflect.FieldDescriptor, _ protoreflect.Value) bool {
+		if fd.IsList() || fd.IsMap() {
+			out = append(out, string(fd.Name()))
+		}
+		return true
+	})
+	if len(out) == 0 {
+		return "", false
+	}
+	sort.Strings(out)
+	return out[r.Intn(len(out))], true
+}
+
 func (g *c05) direct(stored, written proto.Message, um, wm, rm *fieldmaskpb.FieldMask, mtag, rtag vmsg.PathKind) {
 	js := map[string]any{"op": "FieldUpdater", "type": string(stored.ProtoReflect().Descriptor().FullName()),
 		"stored": vmsg.JSON(stored), "written": vmsg.JSON(written), "update_mask": vmsg.MaskJSON(um),
@@ -373,6 +515,8 @@ func (g *c05) direct(stored, written proto.Message, um, wm, rm *fieldmaskpb.Fiel
 	tags = append(tags, selfClass(um, "update:")...)
 	tags = append(tags, selfClass(rm, "reset:")...)
 	tags = append(tags, "update-tag:"+mtag.String())
+	tags = append(tags, g.classTags()...)
+	tags = append(tags, mergeBranch(code, um, wm))
 	term := vcoq.App("KMerge", vmsg.TypeName(stored), vmsg.Mask(um), vmsg.Mask(wm), vmsg.Mask(rm), vcoq.Int(int(mtag)), vcoq.Int(int(rtag)),
 		vmsg.Value(stored), vmsg.Value(written), vcoq.Z(code), obs)
 	g.o.Add(vcoq.Case{Coq: term, JSON: js, Key: term, NonTrivial: code == 0 && um != nil && len(um.Paths) > 0, Tags: tags})
@@ -466,21 +610,23 @@ func (g *c05) viaValue(stored, written proto.Message, allw bool, resw, more, um,
 	tags = append(tags, selfClass(umAll, "update:")...)
 	tags = append(tags, selfClass(rm, "reset:")...)
 	tags = append(tags, "update-tag:"+mtag.String())
+	tags = append(tags, g.classTags()...)
+	tags = append(tags, mergeBranch(code, umAll, eff))
 	term := vcoq.App("KSet", vmsg.TypeName(stored), boolCoq(allw), vmsg.Mask(resw), vmsg.Mask(more), vmsg.Mask(um), vmsg.Mask(moreu), vmsg.Mask(rm),
 		vcoq.Int(int(mtag)), vcoq.Int(int(rtag)), vmsg.Value(stored), vmsg.Value(written), vcoq.Z(code), obs)
 	g.o.Add(vcoq.Case{Coq: term, JSON: js, Key: term, NonTrivial: code == 0 && um != nil && len(um.Paths) > 0, Tags: tags})
 }
 
 func genC05(o *vcoq.Out, r *vcoq.Rand, tier string) error {
-	o.Header = vmsg.Header + "\nFrom SC Require Import Msg.FmUtils Msg.ProtoOps Masks.Get Masks.Update Masks.C05Judge."
+	o.Header = vmsg.Header + "\nFrom SC Require Import Msg.FmUtils Msg.ProtoOps Masks.Get Masks.Update Masks.Options Masks.C05Judge."
 	o.CaseType = "c05case"
 	o.Judge = "judge"
 	o.Shard = 100
-	o.Rule = "random (stored, written) pairs of TestAllTypes and traits Brightness, AirTemperature, ElectricMode (reflection, tiny alphabets, oneofs / optional scalars / maps / lists / nested messages); update mask by class: nil, empty, 1 path, 2-4 paths, duplicate, parent+child (both orders), corrupted (unknown / through scalar, map, repeated / empty segment); writable mask related to the update mask in every way: nil, empty, equal, parents of the update paths, children of them (update is a parent of a narrower writable path), all-but-one, superset with a parent+child pair, unrelated; extra-writable mask (nil / the missing paths / random); all-writable flag; reset mask nil / empty / valid / parent+child / corrupted. 80% of paths walk fields populated in stored or written. 60% of tuples go to masks.FieldUpdater Validate+Merge directly, 40% through resource.Value.Set + Get. Non-trivial: accepted write with a non-empty update mask; distinct by the full case term."
+	o.Rule = "random (stored, written) pairs of TestAllTypes and traits Brightness, AirTemperature, ElectricMode (reflection, tiny alphabets, oneofs / optional scalars / maps / lists / nested messages); update mask by class: nil, empty, 1 path, 2-4 paths, duplicate, parent+child (both orders), corrupted (unknown / through scalar, map, repeated / empty segment); writable mask related to the update mask in every way: nil, empty, equal, parents of the update paths, children of them (update is a parent of a narrower writable path), all-but-one, superset with a parent+child pair, unrelated; extra-writable mask (nil / the missing paths / random); all-writable flag; reset mask nil / empty / valid / parent+child / corrupted. 80% of paths walk fields populated in stored or written. 24% of the pairs have written = stored or differ from it in exactly one field (reset mask on a populated path / update mask naming a populated repeated field made frequent there). 16% of the tuples carry an INVALID path below a valid path of the same or of a united mask (update / extra-update / writable / extra-writable / reset, nine slot pairs; unknown field, continuation below scalar / map / repeated). 12% of the tuples run Value.Set with a random LIST of 0-6 mask options in order (Masks/Options.v); of the rest 60% go to masks.FieldUpdater Validate+Merge directly, 40% through resource.Value.Set + Get with single options (WithMoreUpdateMask in 35%). Fixed lists: the inputs of every repaired defect, written = stored with every mask kind. Non-trivial: accepted write with a non-empty update mask; distinct by the full case term."
 	g := &c05{o: o, r: r}
 	scale := 1
 	if tier == "thorough" {
-		scale = 15
+		scale = 12 // 15 took 13-14 min with the machine loaded by other checks; keep headroom under 15 min
 	}
 	cfgs := []vmsg.RandCfg{vmsg.DefaultCfg, {FieldPct: 45, Depth: 2, MaxList: 2}, {FieldPct: 15, Depth: 3, MaxList: 3}}
 	for i := 0; i < 900*scale; i++ {
@@ -490,35 +636,114 @@ func genC05(o *vcoq.Out, r *vcoq.Rand, tier string) error {
 		}
 		stored := vmsg.RandMsg(r, proto0, cfgs[r.Intn(len(cfgs))])
 		written := vmsg.RandMsg(r, proto0, cfgs[r.Intn(len(cfgs))])
+		// the written message EQUALS the stored one (a code path keyed on "nothing to do" must still append
+		// to repeated fields and apply the reset mask), or differs from it in exactly one field
+		pairClass := "pair:independent"
+		switch c := r.Intn(100); {
+		case c < 14:
+			if c < 9 {
+				stored = vmsg.RandMsg(r, proto0, vmsg.RandCfg{FieldPct: 55, Depth: 2, MaxList: 2})
+			}
+			written = proto.Clone(stored)
+			pairClass = "pair:written=stored"
+		case c < 24:
+			if w, ok := oneFieldChanged(r, stored, cfgs[r.Intn(len(cfgs))]); ok {
+				written = w
+				pairClass = "pair:one-field-differs"
+			}
+		}
 		um, mtag := g.updateMask(stored, written)
 		rm, rtag := g.resetMask(stored, written)
+		if pairClass != "pair:independent" {
+			// every mask kind comes up through updateMask / resetMask / writableMask as usual; make the two
+			// telling ones frequent: a reset mask on a populated field, an update mask naming a populated
+			// repeated field or map
+			switch r.Intn(4) {
+			case 0:
+				if p, ok := populatedPath(r, stored.ProtoReflect(), false); ok {
+					rm, rtag = &fieldmaskpb.FieldMask{Paths: []string{p}}, vmsg.PathValid
+				}
+			case 1:
+				if p, ok := populatedRepeated(r, stored); ok && mtag == vmsg.PathValid {
+					um = withPaths(um, r, p)
+				}
+			}
+		}
 		wm := g.writableMask(stored, written, um)
-		if r.Chance(60) {
-			g.direct(stored, written, um, wm, rm, mtag, rtag)
+		g.pairClass = pairClass
+		g.poison = ""
+		if r.Chance(15) {
+			// a whole LIST of mask options, in order (Masks/Options.v)
+			g.optList(stored, written, wm)
 			continue
 		}
-		var more *fieldmaskpb.FieldMask
-		switch r.Intn(5) {
-		case 0: // what the update mask needs
-			if um != nil && mtag == vmsg.PathValid {
-				more = cloneMask(um)
+		direct := r.Chance(60)
+		var more, moreu *fieldmaskpb.FieldMask
+		if !direct {
+			switch r.Intn(5) {
+			case 0: // what the update mask needs
+				if um != nil && mtag == vmsg.PathValid {
+					more = cloneMask(um)
+				}
+			case 1:
+				more = &fieldmaskpb.FieldMask{Paths: []string{g.pathIn(stored, written), g.pathIn(stored, written)}}
+			case 2:
+				more = &fieldmaskpb.FieldMask{}
 			}
-		case 1:
-			more = &fieldmaskpb.FieldMask{Paths: []string{g.pathIn(stored, written), g.pathIn(stored, written)}}
-		case 2:
-			more = &fieldmaskpb.FieldMask{}
+			if r.Chance(35) {
+				// extra update paths (valid by construction), with nil and non-nil update masks alike
+				moreu = &fieldmaskpb.FieldMask{Paths: []string{g.pathIn(stored, written)}}
+				if r.Chance(30) {
+					moreu.Paths = append(moreu.Paths, g.pathIn(stored, written))
+				}
+				if r.Chance(40) {
+					um = nil
+					mtag = vmsg.PathValid
+				}
+			}
 		}
-		var moreu *fieldmaskpb.FieldMask
-		if r.Chance(35) {
-			// extra update paths (valid by construction), with nil and non-nil update masks alike
-			moreu = &fieldmaskpb.FieldMask{Paths: []string{g.pathIn(stored, written)}}
-			if r.Chance(30) {
-				moreu.Paths = append(moreu.Paths, g.pathIn(stored, written))
+		// an INVALID path below a valid path of the same (or of a united) mask: a normalizing union or
+		// validation of a normalized copy swallows it; every request mask must still be rejected
+		if r.Chance(16) {
+			slot := r.Intn(poisonSlots)
+			if direct {
+				slot = []int{poisonUpdateUpdate, poisonWritable, poisonReset}[r.Intn(3)]
 			}
-			if r.Chance(40) {
-				um = nil
-				mtag = vmsg.PathValid
+			parent := g.pathIn(stored, written)
+			if um != nil && len(um.Paths) > 0 && mtag == vmsg.PathValid && r.Chance(60) {
+				parent = um.Paths[r.Intn(len(um.Paths))]
 			}
+			if bad, kind, ok := invalidBelow(r, stored.ProtoReflect().Descriptor(), parent); ok {
+				g.poison = poisonNames[slot] + ":" + kind.String()
+				// the write must be acceptable but for the invalid path: the parent is writable
+				if wm != nil && slot < poisonWritable && r.Chance(75) {
+					wm = withPaths(wm, r, parent)
+				}
+				switch slot {
+				case poisonUpdateUpdate:
+					um, mtag = withPaths(um, r, parent, bad), kind
+				case poisonUpdateMore:
+					um, moreu, mtag = withPaths(um, r, parent), withPaths(moreu, r, bad), kind
+				case poisonMoreUpdate:
+					um, moreu, mtag = withPaths(um, r, bad), withPaths(moreu, r, parent), kind
+				case poisonMoreMore:
+					um, moreu, mtag = withPaths(um, r), withPaths(moreu, r, parent, bad), kind
+				case poisonWritable:
+					wm = withPaths(wm, r, parent, bad)
+				case poisonMoreWritable:
+					more = withPaths(more, r, parent, bad)
+				case poisonWritableMoreW:
+					wm, more = withPaths(wm, r, parent), withPaths(more, r, bad)
+				case poisonMoreWWritable:
+					wm, more = withPaths(wm, r, bad), withPaths(more, r, parent)
+				case poisonReset:
+					rm, rtag = withPaths(rm, r, parent, bad), kind
+				}
+			}
+		}
+		if direct {
+			g.direct(stored, written, um, wm, rm, mtag, rtag)
+			continue
 		}
 		g.viaValue(stored, written, r.Chance(10), wm, more, um, moreu, rm, mtag, rtag)
 	}
@@ -548,5 +773,53 @@ func genC05(o *vcoq.Out, r *vcoq.Rand, tier string) error {
 	g.viaValue(st, wr, false, nil, nil, nil, fm("default_int32"), nil, vmsg.PathValid, vmsg.PathValid)
 	g.viaValue(st, wr, false, fm(dfm), nil, nil, fm(dfm+".c"), nil, vmsg.PathValid, vmsg.PathValid)
 	g.viaValue(st, wr, false, nil, nil, fm(dfm+".c"), fm("default_int32", dfm+".c"), nil, vmsg.PathValid, vmsg.PathValid)
+	// the input of the defect repaired in pkg/resource/opt.go (3a4e7e7): an unknown path below a path that
+	// WithMoreUpdateMask adds (and the same shape in every other pair of masks)
+	{
+		h := float32(2.5)
+		at := &traits.AirTemperature{AmbientHumidity: &h}
+		atw := &traits.AirTemperature{}
+		ah, bad := "ambient_humidity", "ambient_humidity.value"
+		g.poison = "fixed-list"
+		g.viaValue(at, atw, false, nil, nil, fm(bad), fm(ah), nil, vmsg.PathThroughScalar, vmsg.PathValid)
+		g.viaValue(at, atw, false, nil, nil, fm(ah), fm(bad), nil, vmsg.PathThroughScalar, vmsg.PathValid)
+		g.viaValue(at, atw, false, nil, nil, fm(ah, bad), nil, nil, vmsg.PathThroughScalar, vmsg.PathValid)
+		g.viaValue(at, atw, false, nil, nil, fm(), fm(bad, ah), nil, vmsg.PathThroughScalar, vmsg.PathValid)
+		g.viaValue(at, atw, false, fm(ah), nil, fm("temperature_set_point_delta", bad), fm(ah), nil, vmsg.PathThroughScalar, vmsg.PathValid)
+		g.viaValue(at, atw, false, nil, nil, fm(ah), nil, fm(bad, ah), vmsg.PathValid, vmsg.PathThroughScalar)
+		g.viaValue(at, atw, false, fm(ah, bad), nil, fm(ah), nil, nil, vmsg.PathValid, vmsg.PathValid)
+		g.viaValue(at, atw, false, fm(bad), fm(ah), fm(ah), nil, nil, vmsg.PathValid, vmsg.PathValid)
+		g.viaValue(at, atw, false, fm(ah), fm(bad), nil, nil, nil, vmsg.PathValid, vmsg.PathValid)
+		g.direct(at, atw, fm(bad, ah), nil, nil, vmsg.PathThroughScalar, vmsg.PathValid)
+		g.direct(at, atw, fm(ah), fm(bad, ah), nil, vmsg.PathValid, vmsg.PathValid)
+		g.direct(at, atw, fm(ah), nil, fm(bad, ah), vmsg.PathValid, vmsg.PathThroughScalar)
+		g.poison = ""
+	}
+	// the written message equals the stored one: repeated fields named by the update mask are still
+	// appended, maps overlaid, the reset mask still applied (with every mask kind next to it)
+	{
+		g.pairClass = "pair:written=stored"
+		eq := &testproto.TestAllTypes{DefaultInt32: 7, DefaultString: "s", RepeatedInt32: []int32{1, 2},
+			DefaultForeignMessage:  &testproto.ForeignMessage{C: 1, D: 2},
+			RepeatedForeignMessage: []*testproto.ForeignMessage{{C: 3}},
+			MapStringString:        map[string]string{"a": "x"}}
+		for _, f := range []fixed{
+			{nil, nil, fm("default_int32"), eq},
+			{nil, nil, fm(dfm + ".c"), eq},
+			{fm("default_string"), nil, fm("default_int32"), eq},
+			{fm("default_string"), fm("default_string"), fm(dfm), eq},
+			{fm("repeated_int32"), nil, nil, eq},
+			{fm("repeated_foreign_message", "map_string_string"), nil, nil, eq},
+			{fm("repeated_int32"), fm("repeated_int32", dfm), fm(dfm + ".d"), eq},
+			{nil, fm("repeated_int32"), fm("repeated_int32"), eq},
+			{fm(), nil, fm("default_int32"), eq},
+		} {
+			g.direct(eq, f.w, f.um, f.wm, f.rm, vmsg.PathValid, vmsg.PathValid)
+			g.viaValue(eq, f.w, false, f.wm, nil, f.um, nil, f.rm, vmsg.PathValid, vmsg.PathValid)
+		}
+		g.viaValue(eq, eq, false, nil, nil, fm("default_string"), fm("repeated_int32"), fm("default_int32"), vmsg.PathValid, vmsg.PathValid)
+		g.viaValue(eq, eq, true, fm("default_string"), nil, nil, nil, fm(dfm+".c"), vmsg.PathValid, vmsg.PathValid)
+		g.pairClass = ""
+	}
 	return nil
 }
